@@ -618,7 +618,11 @@ func (uconn *UConn) MarshalClientHelloNoECH() error {
 	for _, ext := range uconn.Extensions {
 		if pe, ok := ext.(*UtlsPaddingExtension); !ok {
 			// If not padding - just add length of extension to total length
-			extensionsLen += ext.Len()
+			extLen := ext.Len()
+			if extLen > 4+0xffff {
+				return errors.New("utls: extension too large to be encoded: " + strconv.Itoa(extLen-4) + " bytes")
+			}
+			extensionsLen += extLen
 		} else {
 			// If padding - process it later
 			if paddingExt == nil {
@@ -632,7 +636,13 @@ func (uconn *UConn) MarshalClientHelloNoECH() error {
 	if paddingExt != nil {
 		// determine padding extension presence and length
 		paddingExt.Update(headerLength + 4 + extensionsLen + 2)
+		if paddingExt.Len() > 4+0xffff {
+			return errors.New("utls: padding extension too large to be encoded")
+		}
 		extensionsLen += paddingExt.Len()
+	}
+	if extensionsLen > 0xffff {
+		return errors.New("utls: extensions too large to be encoded: " + strconv.Itoa(extensionsLen) + " bytes")
 	}
 
 	helloLen := headerLength
